@@ -84,8 +84,17 @@ pub fn generate(seed: u64, idx: u64) -> Scenario {
         }
         n = rng.below(5);
     }
+    let mut hist: Vec<String> = vec![];
     for _ in 0..n {
         let text = s.text(&uri).cloned().unwrap_or_default();
+        if rng.chance(50) {
+            // close/re-open, emptied and filled again, undo/redo
+            gen::lifecycle_steps(&mut rng, &mut s, &uri, &hist);
+            continue;
+        }
+        if hist.last() != Some(&text) && text.len() < 20_000 {
+            hist.push(text.clone());
+        }
         let mut cur = text.clone();
         let k = batch_size(&mut rng, &[1usize, 1, 1, 1, 2, 4]);
         let k = if rng.chance(15) { 0 } else { k }; // a notification without content changes is legal
